@@ -36,7 +36,7 @@ def run(ctx):
     proof_broken = (not cres["ok"]) or bool(bad)
 
     harness = common.build_harness("c04_harness")
-    driver = parser_build.build_driver("C04")
+    driver = common.build_driver("C04")
     quick = ctx.tier == "quick"
     seed = ctx.seed
 
